@@ -350,6 +350,12 @@ def _history_after(hist, name, hn, used, arrs, result):
                                    'now': [a.copy() for a in kept]})
     if not res_arrays:
         return result
+    if len(res_arrays) > 1:
+        # two arrays handed back by one call are two things the caller owns: writing into one must not change the other
+        al = [(i, j) for i in range(len(res_arrays)) for j in range(i + 1, len(res_arrays))
+              if res_arrays[i].size and res_arrays[j].size and np.may_share_memory(res_arrays[i], res_arrays[j])]
+        REC.check(REC.prop or 'C13', name, 'returned_arrays_do_not_alias', not al,
+                  None if not al else {'function': name, 'aliased_positions_in_result': al})
     for r in res_arrays:
         if type(r) is not np.ndarray or not r.flags.writeable:
             return result
